@@ -176,3 +176,229 @@ def parse_lz5(data, declen):
                 pos = data[i] | ((data[i + 1] & 0xf0) << 4); ln = (data[i + 1] & 0x0f) + 3
                 cmds.append("C%d.%d" % (pos, ln)); i += 2; produced += ln
     return ",".join(cmds) or "-", produced
+
+
+# ------------------------------------------------------------------ PMarc
+
+INIT_ORDER = (list(range(0x20, 0x80)) + list(range(0x00, 0x20)) + list(range(0xa0, 0xe0)) +
+              list(range(0x80, 0xa0)) + list(range(0xe0, 0x100)))
+PM2_BYTE = [(0, 3), (8, 3), (16, 4), (32, 5), (64, 5), (96, 5), (128, 6), (192, 6)]
+PM2_COPY = [(17, 3), (25, 3), (33, 5), (65, 6), (129, 7), (256, 0)]
+PM1_BYTE = [(0, 4), (16, 4), (32, 5), (64, 6), (128, 6), (192, 6)]
+_T = "abcdef"
+PM1_TREES = ["((((a b) c) d) (e f))", "(((a b) (c f)) (d e))", "(((a b) c) (d (e f)))", "((a (b c)) (d (e f)))", "((a (b d)) (c (e f)))",
+             "((a (b (e f))) (c d))", "((a b) ((c d) (e f)))", "((a b) ((c (e f)) d))", "((a b) (c (d (e f))))", "(a (((b f) c) (d e)))",
+             "(a (((b (e f)) c) d))", "(a (((b c) d) (e f)))", "(a ((b (c f)) (d e)))", "(a ((b c) (d (e f))))", "(a ((b (d (e f))) c))",
+             "(a (b ((c d) (e f))))", "(a (b (c (d (e f)))))", "(((d e) c) (d e))", "((a (b e)) (c d))", "((a b) (c (d e)))",
+             "(a (((b e) c) d))", "(a ((b c) (d e)))", "(a ((b (d e)) c))", "(a (b (c (d e))))", "(((a b) c) d)", "((a (b d)) c)",
+             "((a b) (c d))", "(a ((b d) c))", "(a (b (c d)))", "(a (b c))", "(a b)", None]
+
+
+def _ptree(s):
+    toks = s.replace("(", " ( ").replace(")", " ) ").split()
+
+    def rd(i):
+        if toks[i] == "(":
+            l, i = rd(i + 1)
+            r, i = rd(i)
+            return (l, r), i + 1
+        return _T.index(toks[i]), i + 1
+    return rd(0)[0]
+
+
+def _paths(t, c, pre=()):
+    if isinstance(t, int):
+        return [pre] if t == c else []
+    return _paths(t[0], c, pre + (0,)) + _paths(t[1], c, pre + (1,))
+
+
+class Out:
+    def __init__(self, fill):
+        self.out, self.mtf, self.fill = bytearray(), list(INIT_ORDER), fill
+
+    def emit(self, b):
+        self.out.append(b)
+        if self.mtf[0] != b:
+            self.mtf.remove(b)
+            self.mtf.insert(0, b)
+
+    def copy(self, d, n):
+        for _ in range(n):
+            i = len(self.out) - 1 - d
+            self.emit(self.out[i] if i >= 0 else self.fill)
+
+
+def parse_pm1(data, declen):
+    """returns (tree, cmds text, produced)"""
+    b = Bits(data + bytes(64))        # the decoder sees zero bits past the end
+    tree = b.get(5)
+    t = _ptree(PM1_TREES[tree]) if PM1_TREES[tree] else None
+    o = Out(0)
+    cmds = []
+
+    def copy_cmd():
+        pos = len(o.out)
+        x = b.get(1)
+        if x == 0:
+            if pos >= 576 and b.get(1):
+                ri = 4
+            else:
+                ri = b.get(1) if pos >= 64 else 0
+        else:
+            y = b.get(1) if pos >= 64 else 1
+            if y == 0:
+                ri = 3
+            else:
+                z = b.get(1) if pos >= 2624 else 1
+                ri = 2 if z else 5
+        if ri < 2:
+            n = 2
+        else:
+            x = b.get(2)
+            if x < 3:
+                n = x + 3
+            else:
+                x = b.get(3)
+                if x < 5:
+                    n = x + 6
+                elif x == 5:
+                    n = b.get(2) + 11
+                elif x == 6:
+                    n = b.get(3) + 15
+                else:
+                    x = b.get(6)
+                    n = x + 23 if x < 62 else (b.get(5) + 85 if x == 62 else b.get(7) + 117)
+        if ri == 0 or ri == 2:
+            d = b.get(6)
+        elif ri == 1:
+            d = 64 + b.get(8)
+        elif ri == 3:
+            d = 64 + b.get(8 if pos < 320 else 9)
+        elif ri == 4:
+            d = 576 + b.get(8 if pos < 832 else 9 if pos < 1088 else 10 if pos < 1600 else 11)
+        else:
+            d = 2624 + b.get(8 if pos < 2880 else 9 if pos < 3136 else 10 if pos < 3648 else 11 if pos < 4672 else 12 if pos < 6720 else 13)
+        o.copy(d, n)
+        return d, n
+
+    while len(o.out) < declen:
+        if b.get(1) == 0:
+            d, n = copy_cmd()
+            cmds.append("C%d.%d" % (d, n))
+        else:
+            x = b.get(2)
+            if x < 3:
+                bl = x + 1
+            else:
+                x = b.get(3)
+                if x < 7:
+                    bl = x + 4
+                else:
+                    x = b.get(4)
+                    bl = x + 11 if x < 14 else (b.get(6) + 25 if x == 14 else b.get(7) + 89)
+            bs, alts = [], []
+            for _ in range(bl):
+                if t is None:
+                    c, alt = 0, 0
+                else:
+                    node, path = t, ()
+                    while not isinstance(node, int):
+                        bit = b.get(1)
+                        path += (bit,)
+                        node = node[bit]
+                    c = node
+                    alt = _paths(t, c).index(path)
+                lo, w = PM1_BYTE[c]
+                k = lo + b.get(w)
+                byte = o.mtf[k]
+                bs.append(byte); alts.append(alt)
+                o.emit(byte)
+            if bl == 216:
+                cp = "-"
+            else:
+                d, n = copy_cmd()
+                cp = "%d.%d" % (d, n)
+            cmds.append("K%s:%s:%s" % (bytes(bs).hex(), ".".join(map(str, alts)) if any(alts) else "-", cp))
+    return tree, ",".join(cmds) or "-", len(o.out)
+
+
+def parse_pm2(data, declen):
+    """returns (first, rebuilds text, cmds text, produced)"""
+    b = Bits(data + bytes(64))
+    first = b.get(1)
+    o = Out(0x20)
+    st = {"code": None, "off": None, "need": False}
+    rebuilds = []
+
+    def read_code():
+        n = b.get(5); mn = b.get(3)
+        st["need"] = n >= 10 and not (n == 29 and mn == 0)
+        if mn == 0:
+            st["code"] = ("s", n - 1)
+            return "s%d" % n
+        lb = b.get(3)
+        lens = []
+        for _ in range(n):
+            v = b.get(lb)
+            lens.append(0 if v == 0 else mn + v - 1)
+        st["code"] = ("l", canon_decoder(lens))
+        return "l%d.%d:%s" % (mn, lb, ".".join(map(str, lens)))
+
+    def read_off(no):
+        if not st["need"]:
+            return "-"
+        lens = [b.get(3) for _ in range(no)]
+        nz = [i for i, l in enumerate(lens) if l]
+        st["off"] = ("s", nz[0]) if len(nz) == 1 else ("l", canon_decoder(lens))
+        return ".".join(map(str, lens))
+
+    phase, next_at = 0, 0
+
+    def rebuild():
+        nonlocal phase, next_at
+        if phase == 0:
+            c = read_code(); of = read_off(5)
+        elif phase == 1:
+            c, of = "-", read_off(6)
+        elif phase == 2:
+            c, of = "-", read_off(7)
+        elif phase == 3:
+            c = read_code() if b.get(1) else "-"
+            of = read_off(8)
+        else:
+            if b.get(1):
+                c = read_code(); of = read_off(8)
+            else:
+                c, of = "-", "-"
+        rebuilds.append("%s;%s" % (c, of))
+        next_at += 1024 if phase <= 1 else 2048 if phase == 2 else 4096
+        phase += 1
+
+    rebuild()
+    cmds = []
+    while len(o.out) < declen:
+        s = read_sym(b, st["code"])
+        if s < 8:
+            lo, w = PM2_BYTE[s]
+            byte = o.mtf[lo + b.get(w)]
+            cmds.append("B%02x" % byte)
+            o.emit(byte)
+        else:
+            c = s - 8
+            if c < 15:
+                n = c + 2
+            else:
+                lo, w = PM2_COPY[c - 15]
+                n = lo + b.get(w)
+            if c == 0:
+                d = b.get(6)
+            elif c < 20:
+                v = read_sym(b, st["off"])
+                d = b.get(6) if v == 0 else (1 << (v + 5)) + b.get(v + 5)
+            else:
+                d = 0
+            cmds.append("A" if c == 20 else "C%d.%d" % (d, n))
+            o.copy(d, n)
+        if len(o.out) >= next_at:
+            rebuild()
+    return first, "/".join(rebuilds), ",".join(cmds) or "-", len(o.out)
